@@ -17,7 +17,7 @@ var verifPayloadSizes = []int{0, 4096, 70000, 1, 300000}
 // verifC18Case builds a well-formed file of the chosen family and returns the
 // header part, the specific loader and the offset just past the last structure the
 // loader needs (computed from the container layout, independent of the loader).
-func verifC18Case() (head []byte, load func(io.Reader) (*meta.Data, io.Reader, error), needed int) {
+func verifC18Case(p int) (head []byte, load func(io.Reader) (*meta.Data, io.Reader, error), needed int) {
 	switch verifChoice(8) {
 	case 0: // PNG without profile: needs everything up to the IDAT chunk type
 		in, _ := pngmeta.VerifBuildPNG(verifChoice(2))
@@ -36,6 +36,12 @@ func verifC18Case() (head []byte, load func(io.Reader) (*meta.Data, io.Reader, e
 		return in, jpegmeta.Load, len(in) - 6
 	case 5: // WebP VP8 / VP8L / VP8X(+ICCP of 3 bytes)
 		in := webpmeta.VerifBuildWebP()
+		// well-formed: for the simple formats the first chunk's declared length covers
+		// the bitstream header and the p bytes of pixel data that follow
+		if in[15] != 'X' {
+			l := len(in) - 20 + p
+			in[16], in[17], in[18], in[19] = byte(l), byte(l>>8), byte(l>>16), byte(l>>24)
+		}
 		n := 30
 		if in[15] == 'L' {
 			n = 25
@@ -59,8 +65,8 @@ func verifC18Case() (head []byte, load func(io.Reader) (*meta.Data, io.Reader, e
 // much pixel data follows, and loading the file truncated at `needed` gives the same result.
 func VerifHarness_C18() {
 	pngmeta.VerifInstallZlibStub()
-	head, load, needed := verifC18Case()
 	p := verifPayloadSizes[verifChoice(verifC18Payloads)]
+	head, load, needed := verifC18Case(p)
 	in := append(append([]byte{}, head...), make([]byte, p)...)
 	src := rd.New(in)
 	src.Chunk = []int{0, 1000}[verifChoice(2)]
